@@ -22,8 +22,9 @@ CHECKS = {
   text=("Theorems about the metadata record of the evaluator model for EVERY query, fuel, as-typed text, extra parameters and input (Props/C18.lean): outcome = reference "
         "interpretation; error flag / status / obtainability of a value agree and the final status is ready or error; type identifier and data-characteristics kind are those of "
         "the value (regenerated table), query = canonical text; last command, namespace, version flag, parent query and argument queries are those of the last executed action; a "
-        "trailing file name changes only query/filename/extension/mimetype (MIMETYPES regenerated); capitalised attributes persist along any chain of predecessors. The agreement of the "
-        "kept copies (cache, store) with the returned metadata is statement-only (c18_kept_copy_agrees_statement) and rests on the oracle: partial. Correspondence: C01/C06 generators "
+        "trailing file name changes only query/filename/extension/mimetype (MIMETYPES regenerated); capitalised attributes persist along any chain of predecessors. The copy kept by the CACHE is proved on the cache model "
+        "(c18_kept_copy_success / _fields / _error / _uncached: after a successful cacheable evaluation the entry under the canonical key is ready and core-equal to the returned state, hence agrees on every state-derived "
+        "metadata field; a failed one leaves a metadata-only error record; a volatile or cache-disabled one leaves no record); the STORE copy (store_key) and the five context-recorded fields rest on the oracle: partial. Correspondence: C01/C06 generators "
         "+ every extension of MIMETYPES, under NoCache, 16 cache configurations cold+warm, store_key into Memory/File stores; projected metadata of returned state vs model; oracle on "
         "returned, cached and stored metadata from an independent reference interpreter and the live registry."),
   note=("Trusted: Lean kernel; LiquerModel/EvalMeta.lean mirror of MetadataContextMixin.metadata, the metadata assembly of evaluate_action, State.with_filename/next_state, log_subquery "
@@ -56,8 +57,11 @@ CHECKS = {
         "twice, the others running to completion in the gaps); the model replays the global sequence of operations the implementation performed (its store_metadata calls verbatim as environment steps); per-thread "
         "outcome, call log, own operations and final cache are compared; oracle: every thread returns its solo NoCache result, every value left in the cache equals a fresh evaluation. In addition, for FileCache and StoreCache(FileStore), "
         "schedules at FILE-operation granularity (every open / write / close / rename / unlink of a thread below the cache directory is a yield point; two writers of a shared prefix inside each other's write protocol "
-        "followed by a reader, and a reader inside one writer's protocol), oracle only. Partial: the file-operation interleavings are explored on the implementation but not covered by a theorem (Conc.lean's step is one cache "
-        "operation; C16's theorems cover every cut point of a single writer)."),
+        "followed by a reader, and a reader inside one writer's protocol), judged by the oracle; the theorem side is ConcFile.lean: file_writers_serializable / "
+        "file_writers_progress_harmless (for EVERY interleaving of the file steps of two FileCache.store writers of one key with private temporaries - and a progress-record writer that never says ready - and every prefix, a "
+        "reader gets nothing, the old entry or the complete new one; other keys are untouched), file_steps_link_* (these step lists are the ones C16's crash replay validates against the code), file_shared_tmp_truncates "
+        "(refutation when two writers share a temporary = seeded change C12-1). Partial: the file-step theorem covers FileCache writers with an atomic reader; StoreCache on FileStore and a multi-step reader are explored by the "
+        "file-operation schedules only."),
   note=("Trusted: Lean kernel; the evaluator model (as C01/C04) and its mechanical oracle-world translation EvalO.lean (harness/gen_evalo.py --check on every run); Conc.lean's atomicity: one cache operation is one step, "
         "Python threads are sequentially consistent at that granularity; the harness scheduler (semaphores, one runnable thread at a time); hypotheses Closed/CanonOK as in C04 (C02 round trip); known finding "
         "rtq-ambiguous-text (shared with C04); the defect found by this check (a metadata-only 'ready' record under the result key) is fixed in /repo (cb22d87)."),
